@@ -64,6 +64,7 @@ type VC struct {
 	assertAt []int
 	atOverride int
 	entryMark  int
+	defTerm    map[string]string
 	loopAssigned map[*ssa.Alloc]bool
 	snapTypes  map[string]bool // element types whose addresses were stored in pointer variables (see Store)
 	modelNotes map[string]bool // modelling assumptions made while generating (reported in the evidence)
@@ -151,6 +152,7 @@ func (vc *VC) reset() {
 	vc.decls = nil
 	vc.declSet = map[string]bool{}
 	vc.defs = nil
+	vc.defTerm = nil
 	vc.asserts = nil
 	vc.defAt = nil
 	vc.assertAt = nil
@@ -207,7 +209,33 @@ func (vc *VC) now() int {
 	return vc.n
 }
 
+// skipFreshStores: reading cell obj of a one-level heap array h. While h is defined as (store h' o v) with o an object
+// created by this function (obj!N) and obj an object that existed at entry (a parameter or captured variable symbol), the
+// store cannot concern obj: read from h' instead. Purely a simplification of the emitted term (the solver would derive
+// the same from o > alloc0 >= obj), it keeps reads of captured variables syntactically equal across heap versions.
+func (vc *VC) skipFreshStores(h, obj string) string {
+	if !(strings.HasPrefix(obj, "fv_") || strings.HasPrefix(obj, "p_")) || strings.ContainsAny(obj, " (") {
+		return h
+	}
+	for i := 0; i < 64; i++ {
+		t, ok := vc.defTerm[h]
+		if !ok || !strings.HasPrefix(t, "(store ") {
+			return h
+		}
+		parts := splitSexp(t)
+		if len(parts) != 4 || !strings.HasPrefix(parts[2], "obj!") {
+			return h
+		}
+		h = parts[1]
+	}
+	return h
+}
+
 func (vc *VC) addDef(d def) {
+	if vc.defTerm == nil {
+		vc.defTerm = map[string]string{}
+	}
+	vc.defTerm[d.Name] = d.Term
 	vc.defs = append(vc.defs, d)
 	vc.defAt = append(vc.defAt, vc.now())
 }
@@ -317,7 +345,7 @@ func (vc *VC) addObl(kind, name string, st *State, goal string, p token.Pos, tag
 		// trivially true: still counted, discharged syntactically
 	}
 	o := &Obl{Name: name, Kind: kind, PC: st.pc, Goal: goal, Pos: vc.pos(p), Tags: tags, Note: note, Mark: vc.n}
-	if strings.Contains(goal, "(exists ") || kind == "pre" || kind == "idx" || kind == "slice" || kind == "site" || kind == "inv-step" {
+	if strings.Contains(goal, "(exists ") || kind == "pre" || kind == "idx" || kind == "slice" || kind == "site" || kind == "inv-step" || kind == "search" {
 		for _, a := range sortedAllocs(st.locals) {
 			v := st.locals[a]
 			if kind == "inv-step" && a.Comment != "rangeindex" && !strings.Contains(goal, "(exists ") && !vc.declaredInLoop(a) {
@@ -334,6 +362,19 @@ func (vc *VC) addObl(kind, name string, st *State, goal string, p token.Pos, tag
 					}
 				}
 			}
+		}
+	}
+	// inside the body of a loop marked "local", obligations are proved from that loop's invariants, the function's
+	// requires and the unchanged state: quantified facts learnt between function entry and the loop are left out
+	if vc.curBlock != nil && vc.Con != nil && kind != "inv-entry" && kind != "inv-step" && kind != "dec" && kind != "post" && kind != "lemma" && kind != "vac" {
+		var inner *LoopInfo
+		for _, li := range vc.loopList {
+			if li.Body[vc.curBlock] && li.hdr != nil && len(vc.Con.OfLoop("local", li.Ordinal)) > 0 && (inner == nil || len(li.Body) < len(inner.Body)) {
+				inner = li
+			}
+		}
+		if inner != nil && o.Mark > inner.mark {
+			o.CutLo, o.CutHi = vc.entryMark, inner.mark
 		}
 	}
 	vc.obls = append(vc.obls, o)
@@ -505,7 +546,7 @@ func (vc *VC) load(st *State, a *Addr) Val {
 		if two {
 			cs[i] = Sel(Sel(vc.heapGet(st, n, arr2Sort(sorts[i])), a.Reg), a.Idx)
 		} else {
-			cs[i] = Sel(vc.heapGet(st, n, arrSort(sorts[i])), a.Obj)
+			cs[i] = Sel(vc.skipFreshStores(vc.heapGet(st, n, arrSort(sorts[i])), a.Obj), a.Obj)
 		}
 	}
 	v, _ := rebuild(a.T, cs)
